@@ -11,7 +11,8 @@ configured dimensions are forwarded (C17.e).
 Added in round 4: the SRS chosen among the supported ones is the element of the configured list
 (C17.k); every source class keeps the gate settings its constructor receives (C17.l).
 Added in round 5: members of composed coverages are transformed before their geometry is used
-(C17.m); shared extents and coverages keep no request state (C17.n)."""
+(C17.m); shared extents and coverages keep no request state (C17.n).
+Added in round 6: GetFeatureInfo is sent with the configured SRS code (C17.o; known finding K2)."""
 import ast
 
 from ..engine import rule
